@@ -248,7 +248,7 @@ func (p *BaseMySQLDataProcessor) decodeBinary(ctx context.Context, encoded []byt
 		if err != nil {
 			break
 		}
-		return ctx, strconv.AppendFloat(nil, numericValue, 'G', -1, 32), nil
+		return ctx, strconv.AppendFloat(nil, numericValue, 'G', -1, 64), nil
 	}
 	// binary and string values in binary format we return as is because it is encrypted blob
 	return ctx, encoded, nil
